@@ -150,6 +150,8 @@ class _G(object):
         w = {'n': name, 'k': kind, 'w': width}
         if kind == 'C':
             w['v'] = val
+            if self.rng.random() < 0.2:
+                w['sg'] = True
         if kind == 'R':
             w['rv'] = rv
         self.wires.append(w)
